@@ -156,6 +156,7 @@ C19_Cgo ==
   obs.kind = "file" =>
     /\ \A s \in obs.specs : s.path = "C" => s.name = ""
     /\ \A r \in obs.refs : r[1] = "C" => r[2] = "C"
+    /\ "C" \notin obs.bare
     /\ (Len(preamble) > 0 => \E s \in obs.specs : s.path = "C")
 
 \* C15 (file level): package comments sit directly on the package clause, header comments are separated from them by
